@@ -620,7 +620,7 @@ Section Wiring.
 
   Notation select_tr := (select_tr BODY).
   Notation select_idle := (select_idle PROG).
-  Notation cpu_event := (cpu_event BODY UNKNOWN PROG).
+  Notation cpu_event fx := (cpu_event fx BODY UNKNOWN PROG).
   Notation bd_value := (bd_value BODY UNKNOWN PROG).
 
   (* what mux0 / mux1 show when they are in step with their inputs *)
@@ -663,12 +663,12 @@ Section Wiring.
       + destruct H1 as (_ & Ht). rewrite Hs, Ht, Htr. now rewrite bd_value_tri.
   Qed.
 
-  Lemma propagate_step f k dirty st :
-    propagate BODY UNKNOWN PROG (S f) k dirty st =
+  Lemma propagate_step fx f k dirty st :
+    propagate fx BODY UNKNOWN PROG (S f) k dirty st =
     match nth_error dirty k with
     | None => Some st
-    | Some c => let (st', ws) := run_cbs BODY UNKNOWN PROG st c in
-                propagate BODY UNKNOWN PROG f (S k) (add_dirty ws dirty) st'
+    | Some c => let (st', ws) := run_cbs fx BODY UNKNOWN PROG st c in
+                propagate fx BODY UNKNOWN PROG f (S k) (add_dirty ws dirty) st'
     end.
   Proof. reflexivity. Qed.
 
@@ -718,10 +718,11 @@ Section Wiring.
     [ go ss tt idle nss ntt nidle | go ss tt idle nss ntt nidle | go ss tt idle nss ntt nidle ].
 
   (* One admissible event: the propagation terminates, re-establishes the invariant, and leaves
-     the three CPU channels at the values written. *)
-  Lemma wiring_step st b :
-    winv st -> batch_ok BODY st b = true ->
-    exists st', cpu_event st b = Some st' /\ winv st' /\ cin_values st' = cin_values (written st b).
+     the three CPU channels at the values written.  Both versions of the code (for fx = true
+     batch_ok has no condition on select_tr). *)
+  Lemma wiring_step fx st b :
+    winv st -> batch_ok fx BODY st b = true ->
+    exists st', cpu_event fx st b = Some st' /\ winv st' /\ cin_values st' = cin_values (written st b).
   Proof.
     intros Hinv Hok.
     destruct st as [ss tt idle tr tri s0 s1 sv].
@@ -736,32 +737,36 @@ Section Wiring.
     - (* no write *)
       cbn. eexists. split; [reflexivity|]. split; [|reflexivity].
       unfold winv, tr_of, tri_of. cbn. split; [reflexivity | assumption].
-    - destruct c1; cbn -[SortDefs.select_tr] in Hc0, Hc1, Hc3; try discriminate; try apply sel_eqb_eq in Hc3.
-      + (* SS *) cases Hinv ss tt idle v1 tt idle.
-      + (* TT *) cases Hinv ss tt idle ss v1 idle.
-      + (* IDLE *) cases Hinv ss tt idle ss tt v1.
-    - destruct c1, c2; cbn -[SortDefs.select_tr] in Hc0, Hc1, Hc3; try discriminate; try apply sel_eqb_eq in Hc3.
-      + (* SS TT *) cases Hinv ss tt idle v1 v2 idle.
-      + (* SS IDLE *) cases Hinv ss tt idle v1 tt v2.
-      + (* TT SS *) cases Hinv ss tt idle v2 v1 idle.
-      + (* TT IDLE *) cases Hinv ss tt idle ss v1 v2.
-    - destruct c1, c2, c3; cbn -[SortDefs.select_tr] in Hc0, Hc1, Hc3; try discriminate; try apply sel_eqb_eq in Hc3.
-      + (* SS TT IDLE *) cases Hinv ss tt idle v1 v2 v3.
-      + (* TT SS IDLE *) cases Hinv ss tt idle v2 v1 v3.
+    - destruct c1; cbn -[SortDefs.select_tr] in Hc0, Hc1; try discriminate;
+        destruct fx; cbn -[SortDefs.select_tr] in Hc3; try discriminate; try apply sel_eqb_eq in Hc3.
+      (* each case for the repaired code, then for the code before the repair *)
+      1,2: (* SS *) cases Hinv ss tt idle v1 tt idle.
+      1,2: (* TT *) cases Hinv ss tt idle ss v1 idle.
+      1,2: (* IDLE *) cases Hinv ss tt idle ss tt v1.
+    - destruct c1, c2; cbn -[SortDefs.select_tr] in Hc0, Hc1; try discriminate;
+        destruct fx; cbn -[SortDefs.select_tr] in Hc3; try discriminate; try apply sel_eqb_eq in Hc3.
+      1,2: (* SS TT *) cases Hinv ss tt idle v1 v2 idle.
+      1,2: (* SS IDLE *) cases Hinv ss tt idle v1 tt v2.
+      1,2: (* TT SS *) cases Hinv ss tt idle v2 v1 idle.
+      1,2: (* TT IDLE *) cases Hinv ss tt idle ss v1 v2.
+    - destruct c1, c2, c3; cbn -[SortDefs.select_tr] in Hc0, Hc1; try discriminate;
+        destruct fx; cbn -[SortDefs.select_tr] in Hc3; try discriminate; try apply sel_eqb_eq in Hc3.
+      1,2: (* SS TT IDLE *) cases Hinv ss tt idle v1 v2 v3.
+      1,2: (* TT SS IDLE *) cases Hinv ss tt idle v2 v1 v3.
     - (* four writes to three channels: some channel is written twice *)
       exfalso. destruct c1, c2, c3, c4; cbn in Hc0; rewrite ?andb_false_r in Hc0; discriminate.
   Qed.
 
   (* whole histories of one CPU *)
-  Lemma wiring_run h : forall st,
-    winv st -> history_ok BODY UNKNOWN PROG st h = true ->
-    exists st', cpu_run BODY UNKNOWN PROG st h = Some st' /\ winv st' /\
+  Lemma wiring_run fx h : forall st,
+    winv st -> history_ok fx BODY UNKNOWN PROG st h = true ->
+    exists st', cpu_run fx BODY UNKNOWN PROG st h = Some st' /\ winv st' /\
                 cin_values st' = cin_values (fold_left written h st).
   Proof.
     induction h as [|b h IH]; intros st Hinv Hok; cbn [history_ok cpu_run fold_left] in *.
     - exists st. split; [reflexivity|]. split; [exact Hinv | reflexivity].
     - apply andb_true_iff in Hok. destruct Hok as (Hb & Hrest).
-      destruct (wiring_step st b Hinv Hb) as (st1 & Hev & Hinv1 & Hvals).
+      destruct (wiring_step fx st b Hinv Hb) as (st1 & Hev & Hinv1 & Hvals).
       rewrite Hev in *. destruct (IH st1 Hinv1 Hrest) as (st' & Hrun & Hinv' & Hv').
       exists st'. split; [exact Hrun|]. split; [exact Hinv'|].
       rewrite Hv'. clear - Hvals.
@@ -779,13 +784,16 @@ Section Wiring.
         destruct (Hgen b' [] [] st1 w H1 H2 H3) as (G1 & G2 & G3). cbn in G1, G2, G3. now rewrite G1, G2, G3.
   Qed.
 
-  Theorem wiring_partial h :
-    history_ok BODY UNKNOWN PROG w_init h = true ->
-    exists st', cpu_run BODY UNKNOWN PROG w_init h = Some st' /\
+  (* for both versions of the code; with fx = true history_ok only asks for the batches the
+     emulator can produce (Props: C20_wiring), with fx = false also for the select_tr condition
+     (Props: C20_wiring_old_partial) *)
+  Theorem wiring_any fx h :
+    history_ok fx BODY UNKNOWN PROG w_init h = true ->
+    exists st', cpu_run fx BODY UNKNOWN PROG w_init h = Some st' /\
                 cin_values st' = cin_values (fold_left written h w_init) /\
                 w_sval st' = bd_of BODY UNKNOWN PROG st'.
   Proof.
-    intros Hok. destruct (wiring_run h w_init winv_init Hok) as (st' & Hrun & Hinv & Hv).
+    intros Hok. destruct (wiring_run fx h w_init winv_init Hok) as (st' & Hrun & Hinv & Hv).
     exists st'. split; [exact Hrun|]. split; [exact Hv|]. now apply winv_value.
   Qed.
 
@@ -809,9 +817,9 @@ Section Wiring.
     induction l as [|y r IH]; intros [|i] x Hl Hx; cbn [upd]; try constructor; inversion Hl; subst; auto.
   Qed.
 
-  Lemma sys_run_ok n h : forall s,
-    sysinv n s -> sys_history_ok BODY UNKNOWN PROG s h = true ->
-    exists s', sys_run BODY UNKNOWN PROG s h = Some s' /\ sysinv n s'.
+  Lemma sys_run_ok fx n h : forall s,
+    sysinv n s -> sys_history_ok fx BODY UNKNOWN PROG s h = true ->
+    exists s', sys_run fx BODY UNKNOWN PROG s h = Some s' /\ sysinv n s'.
   Proof.
     induction h as [|[i b] h IH]; intros s Hinv Hok; cbn [sys_history_ok sys_run fst snd] in *.
     - exists s. now split.
@@ -821,7 +829,7 @@ Section Wiring.
       destruct (nth_error (s_cpus s) i) as [w|] eqn:En; [|discriminate].
       assert (Hi : (i < n)%nat). { rewrite <- Hlen. apply nth_error_Some. congruence. }
       assert (Hw : winv w). { rewrite Forall_forall in Hall. apply Hall. eapply nth_error_In; eassumption. }
-      destruct (wiring_step w b Hw Hb) as (w' & Hev & Hw' & _).
+      destruct (wiring_step fx w b Hw Hb) as (w' & Hev & Hw' & _).
       rewrite Hev in *.
       destruct (step_ok n (s_sort s) i (VInt (w_sval w')) Hm Hi) as (sm' & ws & Hstep & Hm' & Hv' & _).
       rewrite Hstep in *.
@@ -831,14 +839,14 @@ Section Wiring.
       rewrite Hv', Hvals. cbn [to_i64]. symmetry. apply upd_map.
   Qed.
 
-  Theorem system_rows n h :
-    sys_history_ok BODY UNKNOWN PROG (sys_init n) h = true ->
-    exists s, sys_run BODY UNKNOWN PROG (sys_init n) h = Some s /\
+  Theorem system_rows_any fx n h :
+    sys_history_ok fx BODY UNKNOWN PROG (sys_init n) h = true ->
+    exists s, sys_run fx BODY UNKNOWN PROG (sys_init n) h = Some s /\
       length (s_cpus s) = n /\
       Sorted Z.le (rows_of (s_sort s)) /\
       Permutation (rows_of (s_sort s)) (map (bd_of BODY UNKNOWN PROG) (s_cpus s)).
   Proof.
-    intros Hok. destruct (sys_run_ok n h (sys_init n) (sysinv_init n) Hok) as (s & Hrun & Hinv).
+    intros Hok. destruct (sys_run_ok fx n h (sys_init n) (sysinv_init n) Hok) as (s & Hrun & Hinv).
     exists s. split; [exact Hrun|]. destruct Hinv as (Hlen & Hall & Hm & Hvals).
     split; [exact Hlen|].
     rewrite (minv_rows _ _ Hm). destruct Hm as (_ & Hs & _). rewrite Hs. split.
@@ -848,45 +856,88 @@ Section Wiring.
       { apply map_ext_in. intros w Hw. rewrite Forall_forall in Hall. now apply winv_value, Hall. }
       rewrite E. apply Permutation_refl.
   Qed.
+
+  (* the repaired code: every history of batches the emulator can produce *)
+  Theorem wiring h :
+    history_ok true BODY UNKNOWN PROG w_init h = true ->
+    exists st', cpu_run true BODY UNKNOWN PROG w_init h = Some st' /\
+                cin_values st' = cin_values (fold_left written h w_init) /\
+                w_sval st' = bd_of BODY UNKNOWN PROG st'.
+  Proof. exact (wiring_any true h). Qed.
+
+  Theorem system_rows n h :
+    sys_history_ok true BODY UNKNOWN PROG (sys_init n) h = true ->
+    exists s, sys_run true BODY UNKNOWN PROG (sys_init n) h = Some s /\
+      length (s_cpus s) = n /\
+      Sorted Z.le (rows_of (s_sort s)) /\
+      Permutation (rows_of (s_sort s)) (map (bd_of BODY UNKNOWN PROG) (s_cpus s)).
+  Proof. exact (system_rows_any true n h). Qed.
+
+  (* the code before the repair: only histories that also keep select_tr's choice on
+     task-type-only batches *)
+  Theorem wiring_old_partial h :
+    history_ok false BODY UNKNOWN PROG w_init h = true ->
+    exists st', cpu_run false BODY UNKNOWN PROG w_init h = Some st' /\
+                cin_values st' = cin_values (fold_left written h w_init) /\
+                w_sval st' = bd_of BODY UNKNOWN PROG st'.
+  Proof. exact (wiring_any false h). Qed.
+
+  (* the batches the emulator can produce, spelled out: for the repaired code batch_ok is
+     nothing but these three conditions *)
+  Lemma batch_ok_fixed st b :
+    batch_ok true BODY st b =
+    once b && idle_last b &&
+    (if mux0_unevaluated st then match b with [] => true | _ => writes_to CSS b end else true).
+  Proof.
+    unfold batch_ok. cbv zeta. change (true || writes_to CSS b) with true. cbv iota. apply andb_true_r.
+  Qed.
+
+  (* and every history admissible for the old code is admissible for the repaired one *)
+  Lemma batch_ok_old_new st b : batch_ok false BODY st b = true -> batch_ok true BODY st b = true.
+  Proof.
+    rewrite batch_ok_fixed. unfold batch_ok. cbv zeta. intros H. apply andb_true_iff in H. exact (proj1 H).
+  Qed.
 End Wiring.
 
 (* ------------------------------------------------------------------ *)
-(* refutations (nOS-V constants: ST_TASK_BODY = 11, ST_UNKNOWN_SS = 2, ST_PROGRESSING = 100) *)
+(* The defect repaired by /repo commit bca364a, on the model of the code BEFORE the repair
+   (fx = false), and the same histories on the repaired model (fx = true).
+   nOS-V constants: ST_TASK_BODY = 11, ST_UNKNOWN_SS = 2, ST_PROGRESSING = 100 *)
 
 (* The emulator's own event sequence  OHx ; VTx ; VTp  (a task paused while "Task: In body"
    is on top of the subsystem stack, as test/emu/nosv/pause.c does): VTp nulls the task type
-   without touching the subsystem, mux0 keeps forwarding the (now null) task type because its
-   select callback hangs on the subsystem channel only, and the sort module receives 0 although
-   select_tr evaluated now would forward the subsystem.  All writes are in the order the
-   emulator performs them. *)
+   without touching the subsystem.  Before the repair mux0 kept forwarding the (now null) task
+   type because its select callback hung on the subsystem channel only, and the sort module
+   received 0 although select_tr evaluated now would forward the subsystem.  All writes are in
+   the order the emulator performs them. *)
 Definition wit_pause_in_body : list (list (cin * value)) :=
   [ [(CTT, VNull); (CSS, VNull); (CIDLE, VInt 100)];      (* OHx: the CPU gets a running thread *)
     [(CSS, VInt 11); (CTT, VInt 77)];                      (* VTx: push "Task: In body", task type 77 *)
     [(CTT, VNull)] ].                                      (* VTp: task type := null *)
 
-Lemma wiring_refuted_pause :
-  exists st', cpu_run 11 2 100 w_init wit_pause_in_body = Some st' /\
+Lemma wiring_refuted_pause_old :
+  exists st', cpu_run false 11 2 100 w_init wit_pause_in_body = Some st' /\
               w_sval st' = 0 /\ bd_of 11 2 100 st' = 11 /\ w_sval st' <> bd_of 11 2 100 st'.
 Proof. eexists. split; [vm_compute; reflexivity|]. vm_compute. repeat split; discriminate. Qed.
 
 (* ... and the mirror image: resumed (VTr) after the CPU re-evaluated mux0 with a null task
-   type (OHp ; OHr in between): the breakdown keeps showing "Task: In body" instead of the type *)
+   type (OHp ; OHr in between): the breakdown kept showing "Task: In body" instead of the type *)
 Definition wit_resume_in_body : list (list (cin * value)) :=
   wit_pause_in_body ++
   [ [(CTT, VNull); (CSS, VNull); (CIDLE, VInt 101)];       (* OHp: no running thread, idle default Resting *)
     [(CTT, VNull); (CSS, VInt 11); (CIDLE, VInt 100)];      (* OHr *)
     [(CTT, VInt 77)] ].                                      (* VTr *)
 
-Lemma wiring_refuted_resume :
-  exists st', cpu_run 11 2 100 w_init wit_resume_in_body = Some st' /\
+Lemma wiring_refuted_resume_old :
+  exists st', cpu_run false 11 2 100 w_init wit_resume_in_body = Some st' /\
               w_sval st' = 11 /\ bd_of 11 2 100 st' = 77.
 Proof. eexists. split; [vm_compute; reflexivity|]. vm_compute. split; reflexivity. Qed.
 
-(* The same CPU state (ss = 11, tt = null, idle = 100) is shown as 0 after VTp and as 11 after
-   OHp;OHr: the row value is not a function of the CPU's channels. *)
-Lemma wiring_history_dependent :
+(* The same CPU state (ss = 11, tt = null, idle = 100) was shown as 0 after VTp and as 11 after
+   OHp;OHr: the row value was not a function of the CPU's channels. *)
+Lemma wiring_history_dependent_old :
   exists h1 h2 s1 s2,
-    cpu_run 11 2 100 w_init h1 = Some s1 /\ cpu_run 11 2 100 w_init h2 = Some s2 /\
+    cpu_run false 11 2 100 w_init h1 = Some s1 /\ cpu_run false 11 2 100 w_init h2 = Some s2 /\
     cin_values s1 = cin_values s2 /\ w_sval s1 <> w_sval s2.
 Proof.
   exists wit_pause_in_body,
@@ -896,15 +947,36 @@ Proof.
   vm_compute. split; [reflexivity | discriminate].
 Qed.
 
+(* the repaired code on the same two histories: admissible, and the rows are right *)
+Lemma wiring_witnesses_fixed :
+  history_ok true 11 2 100 w_init wit_resume_in_body = true /\
+  (exists st', cpu_run true 11 2 100 w_init wit_pause_in_body = Some st' /\
+               w_sval st' = 11 /\ bd_of 11 2 100 st' = 11) /\
+  (exists st', cpu_run true 11 2 100 w_init wit_resume_in_body = Some st' /\
+               w_sval st' = 77 /\ bd_of 11 2 100 st' = 77).
+Proof.
+  split; [vm_compute; reflexivity|].
+  split; eexists; (split; [vm_compute; reflexivity|]); vm_compute; split; reflexivity.
+Qed.
+
 (* The hazard of DESIGN 6.20: were idle to enter the dirty list before the subsystem, tri would
    be handed to the sort module before tr is recomputed.  Not producible by the emulator
    (model_cpu.c connects the channels in enum order, idle last), but it shows that
-   [idle_last] in [batch_ok] is needed. *)
+   [idle_last] in [batch_ok] is needed (repaired code). *)
 Lemma wiring_order_needed :
-  exists st', cpu_run 11 2 100 w_init
+  exists st', cpu_run true 11 2 100 w_init
                 [ [(CTT, VNull); (CSS, VInt 6); (CIDLE, VInt 100)];
                   [(CIDLE, VInt 100); (CSS, VInt 7)] ] = Some st' /\
               w_tri st' = VInt 7 /\ w_sval st' = 6 /\ bd_of 11 2 100 st' = 7.
+Proof. eexists. split; [vm_compute; reflexivity|]. vm_compute. repeat split. Qed.
+
+(* ... and so is the condition on a CPU whose mux0 never ran: a first batch that only writes
+   idle = Progressing makes mux1 forward the still null tr (row 0), where the breakdown value
+   of (null, null, Progressing) is "Unknown subsystem".  Not producible by the emulator either
+   (the first batch of a CPU is a change of its running thread, which writes all channels). *)
+Lemma wiring_first_batch_needed :
+  exists st', cpu_run true 11 2 100 w_init [ [(CIDLE, VInt 100)] ] = Some st' /\
+              w_sval st' = 0 /\ bd_of 11 2 100 st' = 2.
 Proof. eexists. split; [vm_compute; reflexivity|]. vm_compute. repeat split. Qed.
 
 Lemma jump_harmless_sorted a old new :
